@@ -43,12 +43,28 @@ pub(crate) fn float_lt(a: f64, b: f64) -> bool {
     float_lt_precision(a, b, NEAR_ZERO_PRECISION)
 }
 
-pub(crate) fn float_gt(a: f64, b: f64) -> bool {
-    float_gt_precision(a, b, NEAR_ZERO_PRECISION)
-}
-pub(crate) fn float_le(a: f64, b: f64) -> bool {
-    float_le_precision(a, b, NEAR_ZERO_PRECISION)
-}
-pub(crate) fn float_ge(a: f64, b: f64) -> bool {
-    float_ge_precision(a, b, NEAR_ZERO_PRECISION)
+/// Comparisons of the tableau simplex and of the conversion to standard form:
+/// 9 decimal digits, so that a coefficient of 1e-5 is not taken for zero and an
+/// answer satisfies rows and bounds well within 1e-6.
+pub(crate) mod tight {
+    use super::*;
+    const PRECISION: u8 = 9;
+    pub(crate) fn float_eq(a: f64, b: f64) -> bool {
+        float_eq_precision(a, b, PRECISION)
+    }
+    pub(crate) fn float_ne(a: f64, b: f64) -> bool {
+        float_ne_precision(a, b, PRECISION)
+    }
+    pub(crate) fn float_lt(a: f64, b: f64) -> bool {
+        float_lt_precision(a, b, PRECISION)
+    }
+    pub(crate) fn float_gt(a: f64, b: f64) -> bool {
+        float_gt_precision(a, b, PRECISION)
+    }
+    pub(crate) fn float_le(a: f64, b: f64) -> bool {
+        float_le_precision(a, b, PRECISION)
+    }
+    pub(crate) fn float_ge(a: f64, b: f64) -> bool {
+        float_ge_precision(a, b, PRECISION)
+    }
 }
